@@ -280,10 +280,20 @@ func clampWindow(from, until int64) (int64, int64) {
 var signedRefusals = []string{"not-json", "missing-suffix", "missing-signed-data", "missing-reveal", "reveal-other-key", "reveal-malformed",
 	"alg-not-allowed", "alg-missing", "alg-empty", "extra-header", "bad-signature", "signed-by-other-key", "payload-changed-not-resigned",
 	"nonce-wrong-size", "nonce-undecodable", "key-missing-member", "jws-two-segments", "jws-bad-base64", "payload-not-json", "key-curve-not-allowed-or-missing-key",
-	"reveal-respelled", "reveal-shortened", "header-duplicate-member"}
+	"reveal-respelled", "reveal-shortened", "header-duplicate-member", "reveal-edited", "header-not-object", "alg-not-string"}
 
 var deltaProblems = []string{"delta-hash-mismatch", "delta-missing", "delta-empty-patches", "delta-invalid-patch", "delta-unknown-action",
 	"delta-bad-update-commitment", "delta-too-large"}
+
+// maybeKid adds the optional kid member to the protected header of a signed request (re-signed).
+func maybeKid(t *rapid.T, b *opBuild) {
+	if b.Type == "create" || rapid.IntRange(0, 2).Draw(t, "withKid") != 0 {
+		return
+	}
+	b.Header["kid"] = rapid.SampledFrom([]string{"key-1", "#signing", "did:example:123#k", "ké", "0"}).Draw(t, "kid")
+	b.sign()
+	b.assemble()
+}
 
 // tamperSigned applies one refusal class common to update / recover / deactivate requests. Returns raw bytes.
 func tamperSigned(t *rapid.T, b *opBuild, class string, p protocol.Protocol) []byte {
@@ -308,6 +318,9 @@ func tamperSigned(t *rapid.T, b *opBuild, class string, p protocol.Protocol) []b
 			alt = otherKey(t, b.SignKey).Reveal(b.Alg)
 		}
 		b.Req["revealValue"] = alt
+	case "reveal-edited":
+		// exactly one string is the reveal value of the signing key: any other string is not
+		b.Req["revealValue"], _ = editString(t, b.Reveal)
 	case "reveal-shortened":
 		// a well-formed multihash of the right algorithm whose length field and digest were shortened together
 		d := refDigest(b.Alg, []byte(refJCS(b.SignKey.JWKValue())))
@@ -328,6 +341,18 @@ func tamperSigned(t *rapid.T, b *opBuild, class string, p protocol.Protocol) []b
 			dup = hs[:len(hs)-1] + "," + hs[1:]
 		}
 		b.JWS = compactJWS(dup, pl, sig)
+		b.assemble()
+	case "header-not-object", "alg-not-string":
+		// signed consistently over the header text that is transmitted
+		alg := fmt.Sprint(b.Header["alg"])
+		var hs string
+		if class == "header-not-object" {
+			hs = rapid.SampledFrom([]string{"null", "[]", `["alg","` + alg + `"]`, `"` + alg + `"`, "1", "true", "{}", `[{"alg":"` + alg + `"}]`}).Draw(t, "headerText")
+		} else {
+			hs = `{"alg":` + rapid.SampledFrom([]string{"null", "1", "true", `["` + alg + `"]`, `{"alg":"` + alg + `"}`, "256"}).Draw(t, "algValue") + `}`
+		}
+		pl := []byte(refJCS(b.Signed))
+		b.JWS = compactJWS(hs, pl, b.SignKey.Sign([]byte(b64([]byte(hs))+"."+b64(pl)), 0))
 		b.assemble()
 	case "alg-not-allowed":
 		b.Header["alg"] = rapid.SampledFrom([]string{"HS256", "none", "RS256", "es256"}).Draw(t, "badAlg")
@@ -560,6 +585,7 @@ func genOpCase(t *rapid.T, typ string, ctx *opGenCtx) *opCase {
 		}
 		b = newDeactivate(alg, ctx.Suffix, signer, c.From, c.Until)
 	}
+	maybeKid(t, b)
 	c.Build = b
 	if b.NextUpdate != nil {
 		c.UpdateC = b.NextUpdate.Commitment(alg)
